@@ -122,7 +122,8 @@ def model_check_for(prop, tier, work):
 
 GEN_FAMILIES = {
     # property: list of (terms, srcs, nts, css, fans, NN, MaxW, tables)
-    "C01": [(("collect_vec",), ("vec",), (3,), "Cs_2", "Fans_012", 4, 3), (("collect_vec",), ("iterx",), (2,), "Cs_1_2", "Fans_012", 3, 2)],
+    "C01": [(("collect_vec",), ("vec",), (3,), "Cs_2", "Fans_012", 4, 3), (("collect_vec",), ("iterx",), (2,), "Cs_1_2", "Fans_012", 3, 2),
+            (("collect_vec",), ("vec",), (6,), "Cs_min_auto", "Fans_012", 7, 6)],
     "C02": [(("find",), ("vec",), (3,), "Cs_2", "Fans_find", 4, 3), (("find",), ("iterx", "iter"), (2,), "Cs_1_2", "Fans_find", 3, 2)],
     "C03": [(("reduce",), ("vec",), (3,), "Cs_2", "Fans_012", 4, 3), (("reduce",), ("iterx",), (2,), "Cs_1_2", "Fans_012", 3, 2)],
     "C04": [(("count", "for_each"), ("vec",), (3,), "Cs_2", "Fans_012", 4, 3), (("count",), ("iterx",), (2,), "Cs_1_2", "Fans_012", 3, 2)],
@@ -130,10 +131,10 @@ GEN_FAMILIES = {
     "C06": [(("collect_vec",), ("vec", "iterx"), (2,), "Cs_1_2", "Fans_012", 3, 2)],
     "C07": [(("collect_x",), ("vec",), (3,), "Cs_2", "Fans_012", 4, 3), (("collect_x",), ("iterx",), (2,), "Cs_1_2", "Fans_012", 3, 2)],
     "C08": [(("count", "find"), ("vec",), (2, 3), "Cs_1_2", "Fans_find", 4, 3), (("count",), ("vec",), (6,), "Cs_1_2", "Fans_1", 7, 6)],
-    "C10": [(("find",), ("vec", "iterx"), (2, 3), "Cs_1_2", "Fans_find", 4, 3)],
+    "C10": [(("find",), ("vec", "iterx"), (2, 3), "Cs_1_2", "Fans_find", 4, 3), (("find",), ("vec",), (6,), "Cs_min_auto", "Fans_find", 7, 6)],
     "C11": [(("collect_vec", "count"), ("vec", "iterx"), (3,), "Cs_1_2_3", "Fans_012", 4, 3), (("count",), ("vec",), (6,), "Cs_1_2", "Fans_1", 7, 6)],
     "C13": [(("collect_vec", "find"), ("vec",), (2, 3), "Cs_1_2", "Fans_find", 3, 3)],
-    "C15": [(("collect_vec", "count"), ("vec",), (2, 3), "Cs_min_auto", "Fans_012", 4, 3)],
+    "C15": [(("collect_vec", "count"), ("vec",), (2, 3), "Cs_min_auto", "Fans_012", 4, 3), (("count",), ("vec",), (6,), "Cs_min_auto", "Fans_1", 8, 6)],
     "C14": [(("collect_vec", "count", "find"), ("vec", "iterx"), (2, 3), "Cs_1_2", "Fans_012", 4, 3, "CrashStage1")],
 }
 
